@@ -264,10 +264,10 @@ class Gen:
         x = cmp_expr()
         if x is None: continue
         r = declare('Wire', 'cs', td)
-        stm = []
+        stm = [f's.{r} @= {sn}()']
         for f, ft in STRUCTS[sn]:
           if ft == ('b', 1): stm.append(f's.{r}.{f} @= {cmp_expr()}')
-        if not stm: stm.append(f's.{r}.tag @= zext( {x}, 3 )')
+        if len(stm) == 1: stm.append(f's.{r}.tag @= zext( {x}, 3 )')
         upblk(stm)
         sources.append((r, td))
       elif kind == 'widetoggle':
